@@ -109,7 +109,10 @@ def many_chips(table, target, rng):
         chips.append((xy, sibling()))
     rng.shuffle(chips)
     tables = dict(chips)
-    targets = {xy: (target if xy == (1, 2) else None) for xy in tables}
+    if len(tables) == 1:
+        targets = target              # one number (or None) for every chip: the other accepted shape
+    else:
+        targets = {xy: (target if xy == (1, 2) else None) for xy in tables}
     return minimise_tables(tables, targets).get((1, 2), [])
 
 
